@@ -30,7 +30,6 @@ fn rerr(e: &RErr) -> String {
     match e {
         RErr::Tag(t) => format!("Tag.{}", terr(t)),
         RErr::SomeLowercase => "SomeLowercase".into(),
-        RErr::StandaloneAt => "StandaloneAt".into(),
     }
 }
 fn guard(f: impl FnOnce() -> String) -> String {
@@ -308,7 +307,8 @@ fn prop(c: &Case) -> Verdict {
                 Err(_) => return Verdict::fail("validate-panic", lossy(s)),
             };
             if got_partial != want_partial {
-                let cls = if s == b"@" { "at-accepted" } else if got_partial { "partial-accepts-invalid" } else { "partial-rejects-valid" };
+                // known finding: gix accepts the reference name "@" (pinned by its own test an_at_sign_san)
+                let cls = if s == b"@" { "standalone-at" } else if got_partial { "partial-accepts-invalid" } else { "partial-rejects-valid" };
                 return Verdict::fail(cls, format!("name_partial({}) ok={} git={}", lossy(s), got_partial, want_partial));
             }
             if got_full != want_full {
@@ -319,11 +319,13 @@ fn prop(c: &Case) -> Verdict {
                 Ok(v) => v,
                 Err(_) => return Verdict::fail("sanitize-panic", lossy(s)),
             };
-            if !naive_git(&san, true) {
-                return Verdict::fail("sanitize-invalid", format!("{} -> {} which git rejects", lossy(s), lossy(&san)));
-            }
             if gix_validate::reference::name_partial(san.as_bstr()).is_err() {
                 return Verdict::fail("sanitize-invalid", format!("{} -> {} which name_partial rejects", lossy(s), lossy(&san)));
+            }
+            if !naive_git(&san, true) {
+                // the same known finding seen through the sanitiser: its result is exactly "@"
+                let cls = if san.as_slice() == b"@" { "standalone-at" } else { "sanitize-invalid" };
+                return Verdict::fail(cls, format!("{} -> {} which git rejects", lossy(s), lossy(&san)));
             }
             let class = if got_full {
                 "valid-full"
